@@ -22,6 +22,9 @@ type Pkg struct {
 	Name       string
 	SchemaFn   func() (*ytypes.Schema, error)
 	GlobalTree func() map[string]*yang.Entry
+	// SetGlobalTree replaces the package-level SchemaTree variable of the generated package
+	// (what its Validate / Unmarshal helpers consult).
+	SetGlobalTree func(map[string]*yang.Entry)
 	Unmarshal  func([]byte, ygot.GoStruct, ...ytypes.UnmarshalOpt) error
 	Compressed bool
 	Tags       []string
